@@ -66,12 +66,64 @@ structure Hdr.WF (h : Hdr) : Prop where
   qos : h.qos.isSome = decide (h.subtype > 4)
   a4zero : (h.fromDS && h.toDS) = false → h.addr4 = [0, 0, 0, 0, 0, 0]
 
+/-- a parsed `RSNEAPOL` (src/eapol.cpp): EAPOL version and packet type, descriptor type, the 94-byte
+    `rsn_eapol_header` as read, the key data and what follows it (a `RawPDU`) -/
+structure Eapol where
+  version : UInt8
+  packetType : UInt8
+  descType : UInt8
+  hdr : Bytes
+  key : Bytes
+  trailing : Bytes
+deriving DecidableEq, Repr
+
+namespace Eapol
+def info0 (e : Eapol) : UInt8 := e.hdr.getD 0 0
+def info1 (e : Eapol) : UInt8 := e.hdr.getD 1 0
+def keyMic (e : Eapol) : Bool := e.info0 &&& 1 != 0
+def secure (e : Eapol) : Bool := e.info0 &&& 2 != 0
+def keyDescriptor (e : Eapol) : UInt8 := e.info1 &&& 7
+def keyT (e : Eapol) : Bool := e.info1 &&& 8 != 0
+def install (e : Eapol) : Bool := e.info1 &&& 0x40 != 0
+def keyAck (e : Eapol) : Bool := e.info1 &&& 0x80 != 0
+def nonce (e : Eapol) : Bytes := (e.hdr.drop 12).take 32
+def mic (e : Eapol) : Bytes := (e.hdr.drop 76).take 16
+
+def be16 (n : Nat) : Bytes := [(n / 256 % 256).toUInt8, (n % 256).toUInt8]
+
+/-- `RSNEAPOL::serialize()`: the EAPOL length is recomputed; when there is key data the key-data length (and, for
+    group-key messages, the key length) are rewritten by `write_body` -/
+def serialize (e : Eapol) : Bytes :=
+  let total := 99 + e.key.length + e.trailing.length
+  let hdr := if e.key.isEmpty then e.hdr else
+    let h1 := if !e.keyT && e.install then e.hdr.take 2 ++ [0, 32] ++ e.hdr.drop 4 else e.hdr
+    h1.take 92 ++ be16 (e.key.length % 65536)
+  [e.version, e.packetType] ++ be16 ((total - 4) % 65536) ++ [e.descType] ++ hdr ++ e.key ++ e.trailing
+end Eapol
+
+/-- `EAPOL::from_bytes` restricted to its RSN branch (`none`: the descriptor type is not RSN / WPA) -/
+def parseEapol (b : Bytes) : Except Exc (Option Eapol) :=
+  if b.length < 5 then .error .malformedPacket else
+  let dataLen := (b.getD 2 0).toNat * 256 + (b.getD 3 0).toNat + 4
+  let b := b.take (min b.length dataLen)
+  let t := b.getD 4 0
+  if t == 2 || t == 254 then
+    if b.length < 99 then .error .malformedPacket else
+    let hdr := (b.drop 5).take 94
+    let wpaLen := (hdr.getD 92 0).toNat * 256 + (hdr.getD 93 0).toNat
+    let rest := b.drop 99
+    if rest.length ≥ wpaLen then
+      .ok (some ⟨b.getD 0 0, b.getD 1 0, t, hdr, rest.take wpaLen, rest.drop wpaLen⟩)
+    else .ok (some ⟨b.getD 0 0, b.getD 1 0, t, hdr, [], []⟩)
+  else .ok none
+
 /-- what a `SNAP` carries below it -/
 inductive SnapInner where
   | none
   | raw (b : Bytes)
   /-- some other PDU class (`pdu_type()` number) and the `RawPDU` that `find_pdu<RawPDU>` reaches below it -/
   | pdu (type : Nat) (rawBelow : Option Bytes)
+  | eapol (e : Eapol)
 deriving DecidableEq, Repr
 
 structure Snap where
@@ -137,6 +189,14 @@ def Inner.findRaw : Inner → Option Bytes
     | .none => Option.none
     | .raw b => some b
     | .pdu _ r => r
+    | .eapol e => if e.trailing.isEmpty then Option.none else some e.trailing
+
+/-- `pdu.find_pdu<RSNEAPOL>()` below a `Dot11Data` -/
+def Inner.findEapol : Inner → Option Eapol
+  | .snap s => match s.inner with
+    | .eapol e => some e
+    | _ => Option.none
+  | _ => Option.none
 
 /-- the payload of that `RawPDU` after it has been modified in place -/
 def Inner.setRaw (i : Inner) (nb : Bytes) : Inner :=
@@ -147,17 +207,41 @@ def Inner.setRaw (i : Inner) (nb : Bytes) : Inner :=
     | .none => i
     | .raw _ => .snap { s with inner := .raw nb }
     | .pdu t r => .snap { s with inner := .pdu t (r.map fun _ => nb) }
+    | .eapol e => .snap { s with inner := .eapol { e with trailing := nb } }
 
 inductive Parsed where
   | notData
   | data (f : Frame)
+  /-- a `Dot11Beacon`: `addr3()` and the data of the first SSID element, if any -/
+  | beacon (addr3 : Bytes) (ssid : Option Bytes)
 deriving Repr
+
+/-- `Dot11::parse_tagged_parameters` + `search_option(SSID)`: the first element with id 0 -/
+def parseTagged : Nat → Bytes → Option Bytes → Out (Option Bytes)
+  | 0, _, acc => .ok acc
+  | f + 1, b, acc =>
+    match b with
+    | id :: len :: rest =>
+      if rest.length < len.toNat then .throw .malformedPacket
+      else parseTagged f (rest.drop len.toNat) (if acc.isNone && id == 0 then some (rest.take len.toNat) else acc)
+    | _ => .ok acc
+
+/-- `Dot11Beacon(buffer, total_sz)` (management header, 12 bytes of fixed parameters, tagged parameters) -/
+def parseBeacon (f : Bytes) : Out Parsed :=
+  let both := (f.getD 1 0 &&& 1 != 0) && (f.getD 1 0 &&& 2 != 0)
+  let hl := 24 + (if both then 6 else 0)
+  if f.length < hl + 12 then .throw .malformedPacket else
+  match parseTagged f.length (f.drop (hl + 12)) Option.none with
+  | .ok ssid => .ok (.beacon ((f.drop 16).take 6) ssid)
+  | .throw e => .throw e
+  | .fault a b c => .fault a b c
 
 /-- `Dot11::from_bytes` for data frames (`Dot11Data(buffer, sz)` / `Dot11QoSData(buffer, sz)`);
     other frame types are outside this model (`notData`). -/
 def parseFrame (ip : InnerParser) (f : Bytes) : Out Parsed :=
   match f with
   | fc0 :: fc1 :: rest0 =>
+    if (fc0 >>> 2) &&& 3 == 0 && fc0 >>> 4 == 8 then parseBeacon f else
     if (fc0 >>> 2) &&& 3 != 2 then .ok .notData else
     let both := (fc1 &&& 1 != 0) && (fc1 &&& 2 != 0)
     let isQos := decide ((fc0 >>> 4) > 4)
